@@ -57,7 +57,8 @@ Arity == [Alias |-> <<"LABEL", "LABEL">>, ChargeConj |-> <<"LABEL", "LABEL">>, C
 (* the automaton *)
 NoLine == [bf |-> "-", ds |-> <<>>, ph |-> FALSE, mk |-> "-", mn |-> "-", ps |-> <<>>]
 Cfg0 == [st |-> "top", ctx |-> "top", out |-> <<>>, cur |-> [k |-> "-", args |-> <<>>, lines |-> <<>>],
-         line |-> NoLine, pend |-> "-", rem |-> <<>>, ok |-> TRUE]
+         line |-> NoLine, pend |-> "-", rem |-> <<>>, ok |-> TRUE,
+         pn |-> FALSE]      \* the previous token was lexed as a number
 
 Fail(c) == [c EXCEPT !.ok = FALSE]
 FlushPend(c) == IF c.pend = "-" THEN c ELSE [c EXCEPT !.line.ds = Append(@, c.pend), !.pend = "-"]
@@ -65,7 +66,13 @@ EndLine(c) ==      \* a decay line / model alias body is complete
     IF c.ctx = "decay" THEN [c EXCEPT !.cur.lines = Append(@, c.line), !.line = NoLine, !.st = "indecay"]
     ELSE [c EXCEPT !.out = Append(@, [c.cur EXCEPT !.lines = <<c.line>>]), !.line = NoLine, !.st = "top"]
 
-Step(c, it) ==
+\* The lexer is contextual: in a position where a LABEL may stand, any word that is not one of the other terminals
+\* acceptable *there* is read as a LABEL - a keyword, a number, a model name, the word PHOTOS (found by the
+\* negative corpus of DecSyntaxNeg.tla).  Such a label is written kind:value in Denote.
+Wordy(it) == it.k \in {"KW", "LABEL", "NUM", "MODEL", "PHOTOS"}
+LabelText(it) == IF it.k = "LABEL" THEN it.v ELSE it.k \o ":" \o it.v
+
+StepCore(c, it) ==
     IF ~c.ok THEN c
     ELSE IF it.k = "WS" THEN c
     ELSE LET nlish == it.k \in {"NL", "COMMENT"} IN
@@ -81,8 +88,8 @@ Step(c, it) ==
            ELSE IF it.k = "KW" /\ it.v = "End" THEN [c EXCEPT !.st = "endeos"]
            ELSE Fail(c)
       [] c.st = "args" ->
-           IF it.k = Head(c.rem)
-           THEN LET c2 == [c EXCEPT !.cur.args = Append(@, it.v), !.rem = Tail(@)] IN
+           IF it.k = Head(c.rem) \/ (Head(c.rem) = "LABEL" /\ Wordy(it))
+           THEN LET c2 == [c EXCEPT !.cur.args = Append(@, IF Head(c.rem) = "LABEL" THEN LabelText(it) ELSE it.v), !.rem = Tail(@)] IN
                 IF c2.rem # <<>> THEN c2
                 ELSE IF c.cur.k = "ModelAlias" THEN [c2 EXCEPT !.st = "mamodel", !.ctx = "top"]
                 ELSE [c2 EXCEPT !.st = "eol"]
@@ -98,7 +105,10 @@ Step(c, it) ==
            ELSE IF it.k = "KW" /\ it.v = "Enddecay" THEN [c EXCEPT !.st = "eol", !.ctx = "closing"]
            ELSE Fail(c)
       [] c.st = "dlds" ->
-           IF it.k = "LABEL" THEN [FlushPend(c) EXCEPT !.pend = it.v]
+           \* (directly behind a number the lexer is in the state reached by shifting a number, whatever the rule
+           \*  being parsed: a numeric word is a number, a model name a MODEL_NAME, PHOTOS the keyword)
+           IF it.k \in {"LABEL", "KW"} \/ (it.k = "NUM" /\ ~c.pn)
+           THEN [FlushPend(c) EXCEPT !.pend = LabelText(it)]
            ELSE IF it.k = "PHOTOS" THEN [FlushPend(c) EXCEPT !.line.ph = TRUE, !.st = "dlmodel"]
            ELSE IF it.k = "MODEL" THEN [FlushPend(c) EXCEPT !.line.mk = "model", !.line.mn = it.v, !.st = "opts"]
            ELSE IF it.k = "SEMI" /\ c.pend # "-"
@@ -106,11 +116,12 @@ Step(c, it) ==
            ELSE Fail(c)
       [] c.st \in {"dlmodel", "mamodel"} ->
            IF it.k = "MODEL" THEN [c EXCEPT !.line.mk = "model", !.line.mn = it.v, !.st = "opts"]
-           ELSE IF it.k = "LABEL" THEN [c EXCEPT !.line.mk = "alias", !.line.mn = it.v, !.st = "needsc"]
+           ELSE IF Wordy(it) THEN [c EXCEPT !.line.mk = "alias", !.line.mn = LabelText(it), !.st = "needsc"]
            ELSE Fail(c)
       [] c.st = "needsc" -> IF it.k = "SEMI" THEN [c EXCEPT !.st = "semis"] ELSE Fail(c)
       [] c.st = "opts" ->
-           IF it.k \in {"NUM", "LABEL"} THEN [c EXCEPT !.line.ps = Append(@, it)]
+           IF it.k \in {"MODEL", "PHOTOS"} /\ c.pn THEN Fail(c)
+           ELSE IF Wordy(it) THEN [c EXCEPT !.line.ps = Append(@, it)]
            ELSE IF nlish \/ it.k = "COMMA" THEN c
            ELSE IF it.k = "SEMI" THEN [c EXCEPT !.st = "semis"]
            ELSE Fail(c)
@@ -122,8 +133,15 @@ Step(c, it) ==
       [] c.st = "ended" -> IF nlish THEN c ELSE Fail(c)
       [] OTHER -> Fail(c)
 
+Step(c, it) ==
+    LET r == StepCore(c, it) IN
+    IF it.k = "WS" THEN r
+    ELSE [r EXCEPT !.pn = (it.k = "NUM" /\ (c.st \in {"indecay", "opts"} \/ (c.st = "args" /\ Head(c.rem) = "NUM")))]
+
 RECURSIVE Run(_, _, _)
-Run(c, xs, i) == IF i > Len(xs) THEN c ELSE Run(Step(c, xs[i]), xs, i + 1)
+\* (the test on n.st forces the step to be evaluated before the recursion goes on: TLC passes arguments lazily)
+Run(c, xs, i) == IF i > Len(xs) THEN c
+                 ELSE LET n == Step(c, xs[i]) IN IF n.st = "?" THEN n ELSE Run(n, xs, i + 1)
 Final(xs) == Run(Cfg0, xs, 1)
 Accepts(xs) == Final(xs).ok /\ Final(xs).st \in {"top", "ended"}
 Denote(xs) == Final(xs).out
